@@ -12,16 +12,19 @@ namespace AioMySensors.C08
 open AioMySensors M C07
 
 /-- **Under any fault schedule**: some prefix of the woken node's entries is written successfully
-and removed; then either all are done (the wake succeeds) or the next write failed — the failure
-is reported as the transport error, that entry and all later ones stay buffered (to be written at a
-later wake), and nothing that was written is written again (the snapshot has no key twice). -/
+and removed; then either all are done (the wake succeeds) or the next write did not complete — it
+failed (reported as the transport error) or the listening task was cancelled while it waited in
+that write (the `CancelledError` propagates) — and in both cases that entry and all later ones stay
+buffered (to be written at a later wake), and nothing that was written is written again (the
+snapshot has no key twice). -/
 theorem flush_under_faults (m : Msg) (w : W) (hinv : SbufInv w.st) :
     let snap := snapshotOf w.st m.node
     ∃ i, i ≤ snap.length ∧
       (flush m w).2.st.sbuf = eraseAll w.st.sbuf ((snap.take i).map (·.1)) ∧
       ((i = snap.length ∧ errOf (flush m w).1 = none ∧
           (flush m w).2.writes = w.writes ++ snap.map (fun e => ⟨encode e.2, true⟩)) ∨
-       (∃ e, snap[i]? = some e ∧ errOf (flush m w).1 = some (.lib .transportFailed) ∧
+       (∃ e x, snap[i]? = some e ∧ errOf (flush m w).1 = some x ∧
+          (x = .lib .transportFailed ∧ w.faults[i]? = some .fail ∨ x = .foreign .CancelledError ∧ w.faults[i]? = some .cancel) ∧
           (flush m w).2.writes = w.writes ++ (snap.take i).map (fun e => ⟨encode e.2, true⟩) ++ [⟨encode e.2, false⟩])) := by
   intro snap
   obtain ⟨i, hi, hs, _, _, _, _, hres⟩ := flushList_spec snap w hinv.1
@@ -37,7 +40,7 @@ theorem flush_under_faults (m : Msg) (w : W) (hinv : SbufInv w.st) :
     cases hfl : flushList snap w with
     | mk r w' =>
       rw [hfl] at hres
-      rcases hres with ⟨h1, h2, h3⟩ | ⟨e, h1, h2, h3⟩
+      rcases hres with ⟨h1, h2, h3⟩ | ⟨e, x, h1, h2, hx, h3⟩
       · left
         simp only at h2 h3
         subst h2
@@ -45,7 +48,7 @@ theorem flush_under_faults (m : Msg) (w : W) (hinv : SbufInv w.st) :
       · right
         simp only at h2 h3
         subst h2
-        exact ⟨e, h1, by simp [errOf], by simpa using h3⟩
+        exact ⟨e, x, h1, by simp [errOf], hx, by simpa using h3⟩
 
 /-- **Conservation.** After a wake with arbitrary faults, every entry of the woken node's snapshot
 is in exactly one of two places: written successfully (and no longer buffered), or still buffered
@@ -105,11 +108,24 @@ theorem failure_reaches_listener (inner : Msg → M Msg) (m : Msg) (w w' : W)
     wrapMissingNC inner m w = (.error (.lib .transportFailed), w') :=
   wrapMissingNC_other inner m _ w w' h (by simp [missingCaught])
 
+/-- So does the cancellation: no library clause catches it. -/
+theorem cancellation_reaches_listener (inner : Msg → M Msg) (m : Msg) (w w' : W)
+    (h : inner m w = (.error (.foreign .CancelledError), w')) :
+    wrapMissingNC inner m w = (.error (.foreign .CancelledError), w') :=
+  wrapMissingNC_other inner m _ w w' h (by simp [missingCaught])
+
 /-! Non-vacuity: two parked commands, the second write fails. -/
 example :
     let st : St := { sbuf := [((1, 0, 2), ⟨1, 0, 1, 0, 2, ['5']⟩), ((1, 1, 2), ⟨1, 1, 1, 0, 2, ['6']⟩)] }
-    let r := flush ⟨1, 255, 3, 0, 22, []⟩ { st := st, faults := [false, true] }
+    let r := flush ⟨1, 255, 3, 0, 22, []⟩ { st := st, faults := [.pass, .fail] }
     errOf r.1 = some (.lib .transportFailed) ∧ r.2.st.sbuf = [((1, 1, 2), ⟨1, 1, 1, 0, 2, ['6']⟩)] ∧
+    r.2.writes.map (·.ok) = [true, false] := by decide
+
+/-! … and the same with the listener cancelled during the second write. -/
+example :
+    let st : St := { sbuf := [((1, 0, 2), ⟨1, 0, 1, 0, 2, ['5']⟩), ((1, 1, 2), ⟨1, 1, 1, 0, 2, ['6']⟩)] }
+    let r := flush ⟨1, 255, 3, 0, 22, []⟩ { st := st, faults := [.pass, .cancel] }
+    errOf r.1 = some (.foreign .CancelledError) ∧ r.2.st.sbuf = [((1, 1, 2), ⟨1, 1, 1, 0, 2, ['6']⟩)] ∧
     r.2.writes.map (·.ok) = [true, false] := by decide
 
 end AioMySensors.C08
